@@ -29,7 +29,9 @@ RULE = (
     "univariate data (Series or one-column DataFrame, 5 index types), n<=60 (150). Oracle: anomalies "
     "== the segments [c_i, c_{i+1}) delimited by the changepoints of an INDEPENDENTLY built and "
     "fitted copy of the wrapped detector on the same data whose statistic is < lower or > upper, each "
-    "its own interval; the user's wrapped detector stays unfitted with unchanged parameters. "
+    "its own interval; the user's wrapped detector stays unfitted with unchanged parameters (in 30% of "
+    "the cases the user fitted it on other data before wrapping it: that fit must be left as it was and "
+    "a clone, not the object itself, must be used). "
     "Non-trivial = >=2 segments with >=1 flagged and >=1 unflagged, or adjacent flagged segments; "
     "distinct by recipe digest."
 )
@@ -52,8 +54,24 @@ def make_recipe(rng, tier):
             q = int(rng.integers(1, n - 2))
             cp |= {q, q + 1}
         inner["kw"]["changepoints"] = sorted(c for c in cp if 0 < c < n)
+    prefit = None
+    if rng.random() < 0.3:
+        # the user explored the detector on other data (other length, other scale) before wrapping it
+        m = int(rng.integers(max(nmin, 2), max(nmin, 2) + 80))
+        prefit = (gen_data(rng, m, 1, "mean_changes")[0] * float(rng.choice([0.2, 1.0, 30.0]))).tolist()
     return {"det": spec, "X": X, "container": "series" if rng.random() < 0.5 else "frame",
-            "index": INDEX_KINDS[int(rng.integers(5))], "data_kind": kind}
+            "index": INDEX_KINDS[int(rng.integers(5))], "data_kind": kind, "prefit": prefit}
+
+
+def _fitted_state(obj):
+    """(fitted flag, fitted attributes and the digest of the training data) of a detector"""
+    out = [bool(getattr(obj, "_is_fitted", False))]
+    for a in sorted(vars(obj)):
+        if a.endswith("_") and not a.startswith("_"):
+            v = getattr(obj, a)
+            out.append((a, repr(v) if not hasattr(v, "get_params") else params_digest(v)))
+    out.append(I.data_digest(getattr(obj, "_X", None)) if getattr(obj, "_X", None) is not None else None)
+    return out
 
 
 def exec_case(ctx, r):
@@ -72,7 +90,11 @@ def exec_case(ctx, r):
     try:
         with time_limit(60):
             wrapped = build(inner_spec)
+            if r.get("prefit") is not None:
+                wrapped.fit(np.asarray(r["prefit"], dtype=float))
+                ctx.stat("cases[wrapped detector pre-fitted by the user]")
             before = params_digest(wrapped)
+            fitted_before = _fitted_state(wrapped)
             from skchange.anomaly_detectors.anomalisers import StatThresholdAnomaliser
 
             det = StatThresholdAnomaliser(wrapped, stat=FUNCTIONS[kw["stat"]["fn"]],
@@ -89,11 +111,16 @@ def exec_case(ctx, r):
         return
     ctx.stat("wrapped_untouched_checks")
     fitted_attrs = [a for a in vars(wrapped) if a.endswith("_") and not a.startswith("_")]
-    if getattr(wrapped, "_is_fitted", False) or fitted_attrs or params_digest(wrapped) != before \
-            or det.change_detector is not wrapped:
+    if r.get("prefit") is None:
+        altered = getattr(wrapped, "_is_fitted", False) or fitted_attrs
+    else:  # the user's own fit must be left exactly as it was
+        altered = _fitted_state(wrapped) != fitted_before
+    if altered or params_digest(wrapped) != before or det.change_detector is not wrapped \
+            or getattr(det, "change_detector_", None) is wrapped:
         ctx.violation(sub, "wrapped-detector-altered", f"{label}: the detector passed by the user was "
-                      f"fitted or altered (is_fitted={getattr(wrapped, '_is_fitted', None)}, "
-                      f"fitted attributes {fitted_attrs})", r)
+                      f"fitted, altered or used itself instead of a clone (is_fitted="
+                      f"{getattr(wrapped, '_is_fitted', None)}, fitted attributes {fitted_attrs}, "
+                      f"change_detector_ is the user's object: {getattr(det, 'change_detector_', None) is wrapped})", r)
     stat = FUNCTIONS[kw["stat"]["fn"]]
     lo, hi = kw["stat_lower"], kw["stat_upper"]
     edges = [0] + cp + [n]
